@@ -19,6 +19,12 @@ CHECKS = {
         "Operators without fast path are probed for falling back to Z3 at all three call sites.",
    note="Trusted: PySem and SRE2SMT translators (self-tested against the real closures / CPython re on every run), z3 5.1.0 and cvc5 1.0.3 agreeing, z3 4.11.2 as ground oracle. Known findings listed in KNOWN_FINDINGS.txt.",
    design="§3 C05"),
+ "C09": dict(level="translation_validation", technique="translation validation: SMT (z3) equivalence of first-order encodings of the formula before/after the real rewrite, over all tree structures",
+   text="Translation validation: for each of ~300 (quick) / ~6000 (thorough) enumerated formula programs the real rewrite is run and z3 proves "
+        "enc(F) <=> enc(rewrite F) over all first-order structures (so over all trees, all predicate interpretations; SMT atoms stay interpreted). "
+        "The formula family is enumerated, the tree is quantified by the solver. A raise is a violation; a sat answer only with a concrete witness tree.",
+   note="Trusted: FOL encoder (checks/fol.py), z3 4.11.2 + z3 5.1.0 re-check. Outside: formula shapes outside the family; formulas with concrete tree arguments.",
+   design="§3 C09"),
 }
 NOT_APPLICABLE = {
  "C21": "needs end-to-end solve() on the shipped formalizations plus external validators (docutils, XML parser): the solver loop is a heap algorithm around Z3 calls that no engine here can encode, and the validators are not solver objects",
@@ -58,6 +64,8 @@ def main():
                  kind_free_text="CrossHair 0.0.110 symbolic execution of the real Python functions with z3, one process per condition, reachability twin per harness, replay outside CrossHair"),
             dict(name="E-SMT", path="checks/smt.py", serves_properties=[p for p in CHECKS if "SMT" in CHECKS[p]["technique"]],
                  kind_free_text="SMT-LIB2 obligations over artefacts produced by the real code, decided by z3 5.1.0 and cvc5 1.0.3 (must agree), models replayed against the real code"),
+            dict(name="E-TV", path="checks/fol.py", serves_properties=[p for p in CHECKS if "translation validation" in CHECKS[p]["technique"]],
+                 kind_free_text="translation validation of formula rewrites: first-order encoding of ISLa formulas (trees abstracted to an arbitrary structure), equivalence decided by z3 4.11.2 in-process and re-checked by z3 5.1.0; sat answers confirmed with the real evaluate() on concrete trees"),
         ],
         checks=checks,
         not_applicable=na,
